@@ -53,6 +53,7 @@ func (c *Ctx) Oracle(n int, ok bool, reason string) {
 		return
 	}
 	fmt.Fprintf(c.w, "oracle %d FAIL %s\n", n, strings.ReplaceAll(reason, "\n", " | "))
+	c.w.Flush() // a failing verdict must survive a later crash of the harness process (code under test runs in this process)
 	// every hang costs a watchdog period: once a tree hangs this often the verdict is clear, stop instead of timing out
 	if strings.Contains(reason, "hang") || strings.Contains(reason, "did not return") {
 		c.hangs++
